@@ -15,6 +15,7 @@ EXTENDS Edit
 
 MKeys(I) == {I[i].ap[1] : i \in {j \in 1..Len(I) : IsBind(I[j])}} \cup
             UNION {Range(I[i].names) : i \in {j \in 1..Len(I) : IsInh(I[j])}}
+BKeys(I) == {I[i].ap[1] : i \in {j \in 1..Len(I) : IsBind(I[j])}}
 Members(I, k) == {i \in 1..Len(I) : IsBind(I[i]) /\ I[i].ap[1] = k}
 \* the value a lookup of k yields, as a Tree (paths relative to k)
 MTree(I, k) == { << Drop(e[1], 1), e[2] >> : e \in {x \in TreeOf(I) : x[1] # <<>> /\ x[1][1] = k} }
@@ -56,11 +57,12 @@ MOps(d) ==
     LET surfaces == {[kind |-> "doc", via |-> ""], [kind |-> "scope", via |-> ""]} \cup
                     {[kind |-> "nested", via |-> k] : k \in MKeys(d.body.items)} IN
     UNION { LET I == IF SurfaceOK(d, s) THEN SurfaceItems(d, s) ELSE <<>> IN
-            { [m |-> f, s |-> s, k |-> k, v |-> v] : f \in {"get", "set", "del"}, k \in MKeys(I) \cup {"zz"},
+            \* (an inherited name is readable, but writing / deleting it through the mapping is left to C11)
+            { [m |-> f, s |-> s, k |-> k, v |-> v] : f \in {"get", "set", "del"}, k \in BKeys(I) \cup {"zz"},
                                                       v \in {IntV(7), SetV(FALSE, <<B(<<"k">>, IntV(7))>>)} }
             \* m[dest] = m[src]: hand a looked-up value back to the mapping (dest = src: re-assignment; dest fresh: copy)
             \cup UNION { { [m |-> "copy", s |-> s, k |-> dest, v |-> [k |-> "from", n |-> src]] : dest \in {src, "yy"} }
-                         : src \in MKeys(I) \cup {"zz"} }
+                         : src \in BKeys(I) \cup {"zz"} }
           : s \in surfaces }
 
 \* a nested surface reached through an attrpath FAMILY root (src["f"] for f.x / f.y) is a synthesized view: the
